@@ -1252,7 +1252,7 @@ func descC12(planAny any) any {
 	}
 	return map[string]any{"files": fs, "step_failures": fl, "hot_max_age_days": p.HotMaxAgeDays, "max_concurrent": p.MaxConcurrent,
 		"crash_points": fmt.Sprintf("every mutating storage/metadata step of cycle 0 (cap %d), torn=%v", p.CrashCap, p.Torn),
-		"crash2": p.Crash2, "downtime_h": p.DowntimeH, "scheduled": p.Scheduled, "restart_between": p.RestartBetween}
+		"crash2":       p.Crash2, "downtime_h": p.DowntimeH, "scheduled": p.Scheduled, "restart_between": p.RestartBetween}
 }
 
 func main() {
